@@ -9,6 +9,8 @@ From updog Require Import Conc LockPolicy SingleSection.
 From Gen Require Import LockFacts.
 Local Open Scope list_scope.
 
+Definition policy_C17 : policy := Eval vm_compute in LockPolicy.policy_C17 gen_mutexes gen_methods gen_funs.
+Definition drv_mtx : string := Eval vm_compute in mutex_of gen_mutexes "updogDriver".
 Definition funs := reachable_funs policy_C17 gen_funs entries_C17.
 Definition skeletons_C17 : list stmt := map gen_entry entries_C17.
 
@@ -20,7 +22,7 @@ Lemma C17_locks : well_locked_all policy_C17 funs skeletons_C17 = true.
 Proof. vm_compute. reflexivity. Qed.
 
 Lemma C17_single_section :
-  forallb (fun s => Nat.leb (max_acq policy_C17 funs "updogDriver.fileConnMtx" 8 s) 1) skeletons_C17 = true.
+  forallb (fun s => Nat.leb (max_acq policy_C17 funs drv_mtx 8 s) 1) skeletons_C17 = true.
 Proof. vm_compute. reflexivity. Qed.
 
 Lemma C17_locks_any_threads (threads : list stmt) :
@@ -51,17 +53,17 @@ Theorem C17_operation_is_one_section threads it i entry :
   nth_error threads i = Some entry ->
   forall pre loc1 w1 mid loc2 w2 post,
     it = pre ++ (i, EvAcc loc1 w1) :: mid ++ (i, EvAcc loc2 w2) :: post ->
-    guard_of policy_C17 loc1 = Some (GuardedBy "updogDriver.fileConnMtx") ->
-    guard_of policy_C17 loc2 = Some (GuardedBy "updogDriver.fileConnMtx") ->
+    guard_of policy_C17 loc1 = Some (GuardedBy drv_mtx) ->
+    guard_of policy_C17 loc2 = Some (GuardedBy drv_mtx) ->
     w1 = true \/ w2 = true ->
     forall j e, In (j, e) mid -> j <> i ->
       match e with
-      | EvAcq l' _ | EvRel l' _ => l' <> "updogDriver.fileConnMtx"
-      | EvAcc loc' _ => guard_of policy_C17 loc' <> Some (GuardedBy "updogDriver.fileConnMtx")
+      | EvAcq l' _ | EvRel l' _ => l' <> drv_mtx
+      | EvAcc loc' _ => guard_of policy_C17 loc' <> Some (GuardedBy drv_mtx)
       end.
 Proof.
   intros Hin Hadm Hnth.
-  apply (operation_atomic_excl policy_C17 funs threads it i entry "updogDriver.fileConnMtx" 8).
+  apply (operation_atomic_excl policy_C17 funs threads it i entry drv_mtx 8).
   - apply C17_locks_any_threads, Hin.
   - exact Hadm.
   - exact Hnth.
